@@ -96,11 +96,23 @@ type gen struct {
 	made map[string][]string
 	// follow-up entries a generator wants emitted right after the one it returns (scripted shapes)
 	queue []queued
+	// raft indexes of every CA root-set command generated so far (one of them, or 0, is the current
+	// index of the connect-ca-roots table)
+	caSetIdxs []uint64
+	lazy      map[string]lazy
 }
 
 type queued struct {
 	data []byte
 	tag  string
+}
+
+// lazy is a queued entry whose payload is made when the entry is emitted (g.idx is then the entry's own
+// raft index): scripted shapes whose check-and-set indexes are the indexes of earlier script entries.
+// It travels through the queue as a `queued` with nil data and a key of g.lazy as tag.
+type lazy struct {
+	tag   string
+	build func(g *gen) []byte
 }
 
 // ref picks an identifier of the given kind: mostly one a previous command tried to create.
@@ -713,13 +725,78 @@ func (g *gen) caConfig() *structs.CAConfiguration {
 	return c
 }
 
+// caRotateScript: a stored ACTIVE root X is re-listed as INACTIVE with a zero RotatedOutAt next to a new
+// active root Y (what an older leader / a hand-built command does; current leaders stamp RotatedOutAt
+// before appending). Whatever the store then keeps in RotatedOutAt must come from the command.
+// The table's check-and-set index is one of the earlier root-set commands' indexes or 0: step A writes
+// [X active] once per candidate (exactly one matches, the later ones are stale misses); step B writes
+// [X inactive, Y active] once per step-A entry with that entry's raft index (one matches, the others are
+// stale) — so the shape is reached with matching AND stale indexes.
+func (g *gen) caRotateScript() ([]byte, string) {
+	cands := []uint64{0}
+	seen := map[uint64]bool{0: true}
+	for i := len(g.caSetIdxs) - 1; i >= 0 && len(cands) < 7; i-- {
+		if c := g.caSetIdxs[i]; !seen[c] {
+			seen[c] = true
+			cands = append(cands, c)
+		}
+	}
+	hx.Shuffle(g.r, cands)
+	x := g.r.Intn(4)
+	y := (x + 1 + g.r.Intn(3)) % 4
+	withOld := g.r.Chance(40) // step B keeps a third, long rotated-out root with a command-carried time
+	aIdx := make([]uint64, len(cands))
+	var steps []lazy
+	for j, c := range cands {
+		j, c := j, c
+		steps = append(steps, lazy{tag: "ca:script:rotate:A", build: func(g *gen) []byte {
+			aIdx[j] = g.idx
+			g.caSetIdxs = append(g.caSetIdxs, g.idx)
+			g.touch("ca-roots")
+			return mp(structs.ConnectCARequestType, &structs.CARequest{Datacenter: "dc1", Op: structs.CAOpSetRoots, Index: c, Roots: []*structs.CARoot{g.caRoot(x, true)}})
+		}})
+	}
+	for j := range cands {
+		j := j
+		steps = append(steps, lazy{tag: "ca:script:rotate:B", build: func(g *gen) []byte {
+			g.caSetIdxs = append(g.caSetIdxs, g.idx)
+			g.touch("ca-roots")
+			roots := []*structs.CARoot{g.caRoot(x, false), g.caRoot(y, true)}
+			if withOld {
+				old := g.caRoot((y+1)%4, false)
+				if old.ID != roots[0].ID {
+					old.RotatedOutAt = t0.Add(time.Hour)
+					roots = append(roots, old)
+				}
+			}
+			return mp(structs.ConnectCARequestType, &structs.CARequest{Datacenter: "dc1", Op: structs.CAOpSetRoots, Index: aIdx[j], Roots: roots})
+		}})
+	}
+	if g.lazy == nil {
+		g.lazy = map[string]lazy{}
+	}
+	for _, st := range steps[1:] {
+		key := fmt.Sprintf("lazy#%d", len(g.lazy))
+		g.lazy[key] = st
+		g.queue = append(g.queue, queued{nil, key})
+	}
+	return steps[0].build(g), steps[0].tag
+}
+
 func (g *gen) genConnectCA() ([]byte, string) {
+	if len(g.queue) == 0 && g.r.Chance(12) {
+		return g.caRotateScript()
+	}
 	ops := []structs.CAOp{structs.CAOpSetRoots, structs.CAOpSetConfig, structs.CAOpSetProviderState, structs.CAOpDeleteProviderState,
 		structs.CAOpSetRootsAndConfig, structs.CAOpIncrementProviderSerialNumber, "bogus"}
 	req := structs.CARequest{Datacenter: "dc1", Op: hx.Pick(g.r, ops)}
 	switch req.Op {
 	case structs.CAOpSetRoots, structs.CAOpSetRootsAndConfig:
 		req.Index = g.casIndex("ca-roots")
+		if len(g.caSetIdxs) > 0 && g.r.Chance(40) {
+			req.Index = hx.Pick(g.r, g.caSetIdxs) // often the table's real index
+		}
+		g.caSetIdxs = append(g.caSetIdxs, g.idx)
 		n := 1 + g.r.Intn(3)
 		act := g.r.Intn(n)
 		for i := 0; i < n; i++ {
